@@ -104,7 +104,7 @@ def run_shards(prop, imports, case_type, verdict, case_lines, per_shard=250, tim
         fn = os.path.join(wd, 'shard_%d.v' % k)
         with open(fn, 'w') as f:
             f.write(imports + '\n')
-            f.write('Open Scope float_scope.\n')
+            if 'Floats' in imports: f.write('Open Scope float_scope.\n')
             f.write(extra_defs + '\n')
             # chunk to keep list literals small
             chunks = [sh_cases[i:i + 50] for i in range(0, len(sh_cases), 50)]
